@@ -495,13 +495,26 @@ def r8_persist_every_bucket(ctx, cfg):
         if not ctx.anchor(rule, loops, "per-bucket call inside the loop in %s" % item):
             continue
         n += 1
-        ctx.check(every_iteration(b, loops[0], c.bb), rule, [b.id, "every-bucket"], "every bucket is persisted",
+        # a bucket may be skipped on the strength of a dirty flag - whose discipline E-dirty (R9) decides on every mutator path; any other
+        # skip condition ("nothing pending") is not evidence that the bucket equals its file
+        from . import dirtyflag
+        from .c12 import some_edge
+        tests = set()
+        for (adt_, fl_), info_ in dirtyflag.discover(ctx.prog, ["cascette_client_storage"]).items():
+            tests |= {bb_ for (bid_, bb_) in info_["test"] if bid_ == b.id}
+        se_ = some_edge(b, loops[0])
+        only_dirty_skips = bool(tests) and se_ is not None and loops[0].bb not in b.reachable([se_], avoid={c.bb} | tests) and \
+            not (b.reachable([se_], avoid={c.bb} | tests) & set(b.return_blocks()))
+        ctx.check(every_iteration(b, loops[0], c.bb) or only_dirty_skips, rule, [b.id, "every-bucket"], "every bucket is persisted (or skipped only behind a dirty-flag test)",
                   "%s skips some buckets (a `continue` in front of the per-bucket call): a bucket whose in-memory state changed without pending updates - "
                   "cleared, or just merged - keeps its old file, and after a reload the removed keys are back" % item, c.loc())
     ctx.floor(rule, n, 2, "bucket-walking persistence loops")
 
 
 def run(ctx, cfg=CFG):
+    # E-dirty (rules/dirtyflag.py): every dirty flag found in the crate whose saver lives in this property's modules
+    from . import dirtyflag
+    dirtyflag.rule_dirty(ctx, "C05.R9", ["cascette_client_storage"], file_pat=r"src/(kmt|index)/", floor=6)
     r8_persist_every_bucket(ctx, cfg)
     r7_merge_precedence(ctx, cfg)
     r1_append_consumed(ctx, cfg)
@@ -514,4 +527,4 @@ def run(ctx, cfg=CFG):
 
 
 from .selftest import for_families as _ff  # noqa: E402
-selftest = _ff(['gate', 'loop'])
+selftest = _ff(['gate', 'loop', 'dirty'])
